@@ -390,7 +390,7 @@ fn thresh_decrypt(plan: &Plan, lib: &dyn Lib, rec: &mut Rec) {
             None => Out::Rej("no key".into()),
         };
         let ids: Vec<usize> = order.iter().map(|i| i + 1).collect();
-        rec.case(&[12, g as u64, scheme as u64, t as u64, n as u64, order.iter().fold(7u64, |a, i| a * 131 + *i as u64 + 1)], distinct.len() != n);
+        rec.case(&[12, g as u64, scheme as u64, t as u64, n as u64, order.iter().fold(7u64, |a, i| a.wrapping_mul(131).wrapping_add(*i as u64 + 1))], distinct.len() != n);
         if distinct.len() != order.len() {
             rec.probe("duplicate-share-in-set");
             return; // duplicated identifiers: error or not is C08's clause; nothing claimed here
@@ -760,7 +760,7 @@ fn eg_tally(plan: &Plan, lib: &dyn Lib, rec: &mut Rec) {
         sum += plain[v];
         included.push(v);
     }
-    rec.case(&[14, g as u64, voters as u64, included.len() as u64, plan.faults.len() as u64, included.iter().fold(3u64, |a, v| a * 31 + *v as u64)], !plan.faults.is_empty() || included.len() > 1);
+    rec.case(&[14, g as u64, voters as u64, included.len() as u64, plan.faults.len() as u64, included.iter().fold(3u64, |a, v| a.wrapping_mul(31).wrapping_add(*v as u64))], !plan.faults.is_empty() || included.len() > 1);
     let Some(acc) = acc else {
         rec.probe("no-ballot-arrived");
         c.finish(rec);
